@@ -31,7 +31,7 @@ type fsStats struct {
 	hardLinks                                    int
 }
 
-var fsNames = []string{"a", "b.txt", "with space", "ünïcödé", "日本語", "%41", "0", "07", "FF", "0Aname", "UPPER", "upper", ".hidden", "..two", "tab\tname", "x-😀", "trailing.", "-dash", "~tilde", "a%2Fb"}
+var fsNames = []string{"a", "b.txt", "with space", "ünïcödé", "日本語", "%41", "0", "07", "FF", "0Aname", "UPPER", "upper", ".hidden", "..two", "tab\tname", "x-😀", "trailing.", "-dash", "~tilde", "a%2Fb", "photos [2019]", "back\\slash", "star*", "q?", "[", "[a-z]", "{a,b}"}
 
 // makeFSTree materialises a random tree under dir and returns what it made.
 func makeFSTree(r *rand.Rand, dir string, depth int, st *fsStats, budget *int) {
@@ -627,6 +627,26 @@ func TestC18(t *testing.T) {
 			c.Count("pseudo_file_roots", 1)
 			compareFS(c, pst, pst.LinkSystem(false), linkCid(l), pf)
 			c.Sig("root|pseudo-file|statsize="+fmt.Sprint(fi.Size()), true)
+		}
+		// symbolic links whose lstat size says nothing about their target (the kernel's magic links report 0)
+		for _, pl := range []string{"/proc/self", "/proc/self/cwd", "/proc/self/exe", "/proc/self/root", "/proc/mounts"} {
+			fi, err := os.Lstat(pl)
+			if err != nil || fi.Mode()&os.ModeSymlink == 0 {
+				continue
+			}
+			if tgt, err := os.Readlink(pl); err != nil || tgt == "" {
+				continue
+			}
+			pst := store.New()
+			l, _, err := builder.BuildUnixFSRecursive(pl, pst.LinkSystem(false))
+			if err != nil {
+				c.Violation("C18|import-error", "import root %q (a symbolic link): %v", pl, err)
+				continue
+			}
+			c.Count("trees", 1)
+			c.Count("pseudo_symlink_roots", 1)
+			compareFS(c, pst, pst.LinkSystem(false), linkCid(l), pl)
+			c.Sig("root|pseudo-symlink|statsize="+fmt.Sprint(fi.Size()), true)
 		}
 		st := store.New()
 		if _, _, err := builder.BuildUnixFSRecursive(filepath.Join(dir, "fifo"), st.LinkSystem(false)); err == nil {
